@@ -384,6 +384,46 @@ fn mode_simplify(case: &Value, out: &mut Vec<Value>) {
     }));
 }
 
+// ------------------------------------------------------------------ C07: every rewrite rule on its own
+fn mode_rewrites(case: &Value, out: &mut Vec<Value>) {
+    let id = s(case, "id");
+    let text = s(case, "f");
+    let f: fol::Formula = match text.parse() {
+        Ok(p) => p,
+        Err(e) => {
+            out.push(json!({"id":id,"kind":"reject","text":text,"error":format!("{e}")}));
+            return;
+        }
+    };
+    let n_ht = verif::portfolio("ht").unwrap().len();
+    let all = verif::portfolio("classic").unwrap();
+    let mut syms = BTreeSet::new();
+    tree::fol_formula_syms(&f, &mut syms);
+    let mut results: Vec<(usize, Result<fol::Formula, String>)> = Vec::new();
+    for (i, rule) in all.iter().enumerate() {
+        let r = guarded(|| {
+            let mut one = *rule;
+            f.clone().apply(&mut one)
+        });
+        if let Ok(g) = &r {
+            tree::fol_formula_syms(g, &mut syms);
+        }
+        results.push((i, r));
+    }
+    let rk = Ranks::from_set(&syms);
+    let outs: Vec<Value> = results
+        .iter()
+        .map(|(i, r)| {
+            let pf = if *i < n_ht { format!("rewrite-ht-{i}") } else { format!("rewrite-classic-{i}") };
+            match r {
+                Ok(g) => json!({"portfolio":pf,"strategy":"recursive","out":tree::formula(g, &rk),"out_text":g.to_string(),"same": *g == f}),
+                Err(p) => json!({"portfolio":pf,"strategy":"recursive","panic":p}),
+            }
+        })
+        .collect();
+    out.push(json!({"id": id, "kind": "simp", "text": text, "nsyms": rk.0.len(), "syms": rk.0, "f": tree::formula(&f, &rk), "outs": outs}));
+}
+
 // ------------------------------------------------------------------ problems (C02 C03 C09 C11 C12 C13 C19)
 fn parse_direction(x: &str) -> fol::Direction {
     match x {
@@ -775,6 +815,7 @@ fn main() {
             "roundtrip" => mode_roundtrip(&case, &mut out),
             "analyze" => mode_analyze(&case, &mut out),
             "outputs" => mode_outputs(&case, &mut out),
+            "rewrites" => mode_rewrites(&case, &mut out),
             m => {
                 eprintln!("harness: unknown mode {m}");
                 std::process::exit(2);
